@@ -126,11 +126,13 @@ theorem sumAdd_lawful : Lawful sumAddItem := sumAddItem_lawful
 theorem combinator_lawful {U B : Type} {I : Item T M A} {J : Item U M B} (LI : Lawful I) (LJ : Lawful J) :
     Lawful (prodItem I J) := prodItem_lawful LI LJ
 
-/-- the two nestings the harness runs -/
+/-- the nestings the harness runs (the last one has two non-commutative components) -/
 theorem harness_combinators_lawful :
-    Lawful (prodItem minAddItem maxAddItem) ∧ Lawful (prodItem (prodItem sumAddItem minAddItem) maxAddItem) :=
+    Lawful (prodItem minAddItem maxAddItem) ∧ Lawful (prodItem (prodItem sumAddItem minAddItem) maxAddItem) ∧
+    Lawful (prodItem affHashItem affHashItem) :=
   ⟨prodItem_lawful minAddItem_lawful maxAddItem_lawful,
-   prodItem_lawful (prodItem_lawful sumAddItem_lawful minAddItem_lawful) maxAddItem_lawful⟩
+   prodItem_lawful (prodItem_lawful sumAddItem_lawful minAddItem_lawful) maxAddItem_lawful,
+   prodItem_lawful affHashItem_lawful affHashItem_lawful⟩
 
 /-- the harness's non-commutative item with non-commuting (affine) modifiers -/
 theorem affHash_lawful : Lawful affHashItem := affHashItem_lawful
